@@ -103,6 +103,7 @@ def c_target() -> CTarget:
 
 _RZ = 256          # red zone bytes on each side
 _PAT = 0xA5
+RZ_FILL = _PAT     # red zone fill byte; C11 varies it between runs
 
 _scratch_dir: tuple[int, str] | None = None
 _lib_cache: dict[str, Any] = {}
@@ -266,7 +267,7 @@ class CKernel:
         def alloc(name: str, shape, dtype, init: np.ndarray | None):
             dtype = np.dtype(dtype)
             n = int(np.prod(shape, dtype=np.int64)) * dtype.itemsize
-            raw = np.full(n + 2*_RZ + 64, _PAT, dtype=np.uint8)
+            raw = np.full(n + 2*_RZ + 64, RZ_FILL, dtype=np.uint8)
             # align the payload to 64 bytes
             base = raw.ctypes.data + _RZ
             off = _RZ + ((-base) % 64)
@@ -327,7 +328,8 @@ class CKernel:
         # red zones and inputs
         for name, raw, init, off in blocks:
             n = raw.size - 2*_RZ - 64
-            if not (raw[:off] == _PAT).all() or not (raw[off+n:] == _PAT).all():
+            if not (raw[:off] == RZ_FILL).all() or not (
+                    raw[off+n:] == RZ_FILL).all():
                 raise MemoryViolation(f"red zone of '{name}' damaged")
             if init is not None:
                 now = raw[off:off+n]
